@@ -323,6 +323,13 @@ func (s *Store[K, V]) GetWithSecodary(key K) (V, bool, error) {
 		// load and store should be atomic
 		shard.mu.Lock()
 		defer shard.mu.Unlock()
+		// The key may have been stored since the lookup above missed: memory wins,
+		// the (older) secondary copy must not overwrite it.
+		if exist, ok := shard.get(key); ok {
+			if exp := exist.expire.Load(); exp == 0 || exp > s.timerwheel.clock.NowNano() {
+				return exist.value, nil
+			}
+		}
 		v, cost, expire, ok, err := s.secondaryCache.Get(key)
 		if err != nil {
 			return v, err
@@ -1262,6 +1269,13 @@ func (s *LoadingStore[K, V]) Get(ctx context.Context, key K) (V, error) {
 
 			// first try get from secondary cache
 			if s.secondaryCache != nil {
+				// The key may have been stored since the lookup above missed: memory
+				// wins, the (older) secondary copy must not overwrite it.
+				if exist, ok := shard.get(key); ok {
+					if exp := exist.expire.Load(); exp == 0 || exp > s.timerwheel.clock.NowNano() {
+						return Loaded[V]{Value: exist.value}, nil
+					}
+				}
 				vs, cost, expire, ok, err := s.secondaryCache.Get(key)
 				var notFound *NotFound
 				if err != nil && !errors.As(err, &notFound) {
